@@ -26,4 +26,18 @@ PROPS = {
         real=REAL_CODEC, simulated=SIM_COMMON,
         assumptions=ASSUME_COMMON + ["the clause about the frozen RFC 6716 reference decoder is not covered (no reference decoder offline)"],
     ),
+    "C05": dict(
+        level="exploration",
+        variants=dict(quick=[("asan", 1)], thorough=[("asan", 3), ("fixed-asan", 1)]),
+        must_build=["asan"],
+        runs=dict(quick=6000, thorough=150000), secs=dict(quick=45, thorough=600),
+        rule="one evaluation = one simulated session with rate-control churn (CBR/CVBR/VBR toggles, bitrate sweeps incl. AUTO/MAX, max_data_bytes 1..4000 with MTU collapses to 1-10 bytes) "
+             "between frames of every duration; oracles: exact-size output block (ASan) + return range, exact CBR size formula, BITRATE_MAX fill, multistream CBR constancy, constrained-VBR "
+             "long-term average, and the full C02 validity/lock-step oracle on every packet; non-trivial = a control change took effect after the first frame and >=5 calls succeeded; "
+             "distinct = 64-bit signature over (TOC, duration, tiny flag, small-MTU flag, ctl outcome) sequence",
+        fault_keys=["ctl_applied", "ctl_rejected", "mtu_le4", "enc_invalid_args", "enc_refused"],
+        probes_required=["cbr_checked", "cbr_max_fill", "ms_cbr_checked", "mode_silk", "mode_hybrid", "mode_celt"],
+        real=REAL_CODEC, simulated=SIM_COMMON,
+        assumptions=ASSUME_COMMON + ["CBR size accepted when within 0.5+1/12 byte of bitrate*duration/8 (the code rounds in 1/12-byte units)"],
+    ),
 }
